@@ -7,7 +7,7 @@
 From Coq Require Import List Bool Arith.
 Import ListNotations.
 Require Import MV.Model.Orch MV.Proofs.OrchP MV.Model.Worker MV.Spec.WorkerSpec.
-Require Import MV.Proofs.WorkerP MV.Proofs.WorkerExitP MV.Proofs.WorkerRefP MV.Proofs.WorkerWitP.
+Require Import MV.Proofs.WorkerP MV.Proofs.WorkerExitP MV.Proofs.WorkerRefP MV.Proofs.WorkerStaleP MV.Proofs.WorkerWitP.
 
 Theorem Worker_wf_plan_ok : forall order p, wf_plan order p = true -> plan_ok p /\ NoDup (map sid p).
 Proof. exact wf_plan_ok. Qed.
@@ -73,13 +73,61 @@ Theorem Worker_drop_failure_lost_refuted : exists st, exec (wc_mp nof) pinit tr_
 Proof. exact worker_drop_failure_lost_refuted_l. Qed.
 Print Assumptions Worker_drop_failure_lost_refuted.
 
-(* Conversely a run WITHOUT any failure can raise (crash point CPoll; not in the model's oracle: nothing fails):
-   a DROP_COMPLETE arriving after the 5 s timeout of wait_for_drop_completion is later taken by poll_result_queues, where
-   UUID(("DROP_COMPLETE", uuid)) raises.  Reproduced on the real code: known finding C06-mp-stale-drop-complete. *)
-Theorem Worker_stale_drop_complete_refuted : exists st, exec wc_stale pinit tr_stale = Some st /\ pc st = PExited XRaisedBody /\
+(* ------------------------------------------------------------------------------------------------------------------ *)
+(* (2b) Conversely: a run WITHOUT any failure does not raise.
+   PRE-10693fe BEHAVIOUR (regression input; `exec_old` = the transition function with the poll_result_queues of the code
+   before repair 10693fe, Model/Worker.v poll_old / step_old): a DROP_COMPLETE arriving after the 5 s timeout of
+   wait_for_drop_completion was later taken by poll_result_queues, where UUID(("DROP_COMPLETE", uuid)) raised - a run in
+   which NOTHING fails ended XRaisedBody.  Was known finding C06-mp-stale-drop-complete, now fixed:10693fe. *)
+Theorem Worker_stale_drop_complete_old_refuted : exists st, exec_old wc_stale pinit tr_stale = Some st /\ pc st = PExited XRaisedBody /\
   failed (o st) = [] /\ replies st = [(1, true); (0, true)] /\ phase (ws st 6) = WKilled.
-Proof. exact stale_drop_complete_refuted_l. Qed.
-Print Assumptions Worker_stale_drop_complete_refuted.
+Proof. exact stale_drop_complete_old_refuted_l. Qed.
+Print Assumptions Worker_stale_drop_complete_old_refuted.
+
+(* The repaired code: that history is no longer a trace (its first label that is not enabled is the OArtifacts after the
+   poll) ... *)
+Theorem Worker_stale_old_history_rejected : exec wc_stale pinit tr_stale = None /\
+  first_bad wc_stale pinit tr_stale 0 = Some (List.length tr_stale_prefix).
+Proof. exact stale_old_history_rejected_l. Qed.
+Print Assumptions Worker_stale_old_history_rejected.
+
+(* ... and FOR ALL plans, assignments, oracles and interleavings: in a trace that contains no failure label (no WFail, no
+   crash point of the main thread: OCollect false / OExec false / OSendFail / OArtifacts false - polls taking stale
+   acknowledgements, timed-out waits, a swallowed final-drop failure and even a crashed drop in a worker are all allowed)
+   the error register stays empty, no failure report exists, and the exit kind, if the run has left the loop, is
+   XNormal or XAbandon - never XRaisedBody / XRaisedHead / XFinallyCrash. *)
+Theorem Worker_stale_ack_harmless : forall c tr st, exec c pinit tr = Some st -> fault_free tr ->
+  failed (o st) = [] /\ (forall s, ~ In (s, false) (replies st)) /\
+  forall x, xk (pc st) = Some x -> x = XNormal \/ x = XAbandon.
+Proof. exact stale_ack_harmless_l. Qed.
+Print Assumptions Worker_stale_ack_harmless.
+
+(* a poll never leaves the loop: it moves the main thread from the visit to its done-test, adds exactly the step results
+   it took to `done` (a DROP_COMPLETE contributes nothing) and touches nothing but result queues *)
+Theorem Worker_poll_never_raises : forall c st taken st', step c st (OPoll taken) = Some st' ->
+  (exists i, pc st = PVisit i /\ pc st' = PPolled i) /\
+  o st' = fold_left (fun a s => add_done s a) (polled_dones taken) (o st) /\
+  (forall w, same_but_resq (ws st' w) (ws st w)) /\
+  sc st' = sc st /\ tasks st' = tasks st /\ flight st' = flight st /\ sent st' = sent st /\ replies st' = replies st /\
+  dropfail st' = dropfail st.
+Proof. exact poll_never_raises_l. Qed.
+Print Assumptions Worker_poll_never_raises.
+
+(* a stale acknowledgement taken by a poll - at WHATEVER position of the iteration over the result queues - changes nothing
+   except that it has left worker w's result queue: the poll without it is enabled as well and leads to the same state
+   with the DROP_COMPLETE still at the head of w's lane *)
+Theorem Worker_stale_ack_only_queue : forall c st pre w post st', step c st (OPoll (pre ++ (w, RDropComplete) :: post)) = Some st' ->
+  exists st'', step c st (OPoll (pre ++ post)) = Some st'' /\ differ_by_ack st' st'' w.
+Proof. exact stale_ack_only_queue_l. Qed.
+Print Assumptions Worker_stale_ack_only_queue.
+
+(* the witness run of the old finding now completes: the acknowledgement is consumed, the third step is collected *)
+Example Worker_ex_stale_fixed : exists st, exec wc_stale pinit tr_stale_fixed = Some st /\ pc st = PExited XNormal /\
+  failed (o st) = [] /\ replies st = [(2, true); (1, true); (0, true)] /\ results (o st) = [2; 1; 0] /\ flight st = [] /\
+  resq (ws st 5) = [] /\ phase (ws st 5) = WKilled /\ phase (ws st 6) = WExited.
+Proof. exact stale_drop_complete_fixed_l. Qed.
+Example Worker_ex_stale_fixed_fault_free : fault_free tr_stale_fixed.
+Proof. exact stale_fixed_fault_free_l. Qed.
 
 (* ================================================================================================================== *)
 (* (3) refinement.  (a) Every `stable` invariant of Model/Orch.v (preserved by visit, bump, drain, worker_done - the form
@@ -118,7 +166,7 @@ Proof. exact refinement_outcome_l. Qed.
 Print Assumptions Worker_refinement_outcome.
 
 (* ================================================================================================================== *)
-(* (4) EVERY exit path (normal, error at the loop head, exception in the loop body: CPoll / CResult / CPrepare, consumer
+(* (4) EVERY exit path (normal, error at the loop head, exception in the loop body: CResult / CPrepare / CSend, consumer
    abandoning the stream) ends with every started worker terminated (processes) and joined, no worker alive - hence no
    worker waiting on a queue -, and every dataset key registered by a worker dropped (C09 at protocol level).
    Full statement: for every x.  It FAILS for x = XFinallyCrash and under a failing final drop (witnesses below), so: *)
@@ -161,6 +209,14 @@ Proof. exact ex_mp_ok_l. Qed.
 Example Worker_ex_thr_fail : exists st, exec (wc_thr fail1) pinit tr_thr_fail = Some st /\ pc st = PExited XRaisedHead /\
   failed (o st) = [1] /\ done (o st) = [0] /\ results (o st) = [] /\ joined (ws st 0) = true /\ joined (ws st 1) = true.
 Proof. exact ex_thr_fail_l. Qed.
+(* crash point CSend (repair d86b7a0: a step that cannot be pickled raises in send_command): the run raises, the worker
+   that was already started - with or without an earlier command - is terminated and joined *)
+Example Worker_ex_sendfail : exists st, exec (wc_mp nof) pinit tr_sendfail = Some st /\ pc st = PExited XRaisedBody /\
+  sent st = [(5, 0)] /\ phase (ws st 5) = WKilled /\ joined (ws st 5) = true /\ running (o st) = [2; 1].
+Proof. exact ex_sendfail_l. Qed.
+Example Worker_ex_sendfail_new_worker : exists st, exec (wc_mp nof) pinit tr_sendfail_new = Some st /\ pc st = PExited XRaisedBody /\
+  sent st = [] /\ tasks st = [5] /\ phase (ws st 5) = WKilled /\ joined (ws st 5) = true.
+Proof. exact ex_sendfail_new_l. Qed.
 (* the projection of the fault-free run and its Orch.v outcome *)
 Example Worker_ex_projection : fst (proj (wc_mp nof) pinit tr_mp_ok ([], [])) = [EScan; EDone 0 true; EDone 1 true; EScan] /\
   loop_head wp2 (run false false nofail wp2 (fst (proj (wc_mp nof) pinit tr_mp_ok ([], [])))) = ExitNormal.
